@@ -5,6 +5,7 @@ use serde_json::Value;
 pub mod c01;
 pub mod c02;
 pub mod c03;
+pub mod c11;
 pub mod c13;
 pub mod c16;
 
@@ -19,6 +20,7 @@ pub const PROPS: &[Prop] = &[
     Prop { id: "C01", level: "exploration", run: c01::run, replay: c01::replay },
     Prop { id: "C02", level: "exploration", run: c02::run, replay: c02::replay },
     Prop { id: "C03", level: "exploration", run: c03::run, replay: c03::replay },
+    Prop { id: "C11", level: "exploration", run: c11::run, replay: c11::replay },
     Prop { id: "C13", level: "exploration", run: c13::run, replay: c13::replay },
     Prop { id: "C16", level: "fault_enumeration", run: c16::run, replay: c16::replay },
 ];
